@@ -532,14 +532,30 @@ fn sched_code(r: &Result<(), SchedulingError>) -> u8 {
 }
 
 macro_rules! by_input {
-    ($i:expr, $f:ident) => {
-        match $i {
-            0 => $f!(SM::in0),
-            1 => $f!(SM::in1),
-            2 => $f!(SM::in2),
-            _ => $f!(SM::in3),
+    ($i:expr, $s:expr, $f:ident) => {
+        match ($i, $s) {
+            (0, false) => $f!(SM::in0),
+            (1, false) => $f!(SM::in1),
+            (2, false) => $f!(SM::in2),
+            (_, false) => $f!(SM::in3),
+            (0, true) => $f!(SM::in0s),
+            (1, true) => $f!(SM::in1s),
+            (2, true) => $f!(SM::in2s),
+            (_, true) => $f!(SM::in3s),
         }
     };
+}
+
+/// An input whose script never awaits (no send, no query) is registered as a plain `fn` input method instead of an
+/// `async fn` one on models / inputs chosen by a parity: both kinds of input methods are legal and must behave alike.
+static SYNC_SALT: std::sync::atomic::AtomicUsize = std::sync::atomic::AtomicUsize::new(0);
+fn use_sync(spec: &MSpec, id: usize, input: usize) -> bool {
+    (id + input + SYNC_SALT.load(std::sync::atomic::Ordering::Relaxed)) % 2 == 1
+        && spec
+            .handlers
+            .get(input)
+            .map(|s| s.iter().all(|o| !matches!(o, Op::Send(..) | Op::Query(..))))
+            .unwrap_or(true)
 }
 
 impl SM {
@@ -592,7 +608,8 @@ impl SM {
                 }
             }};
         }
-        by_input!(input, go)
+        let sy = use_sync(&self.spec, self.id, input);
+        by_input!(input, sy, go)
     }
 
     async fn exec(&mut self, script: &[Op], v: i64, cx: &mut Context<Self>) {
@@ -689,6 +706,59 @@ impl SM {
     }
     pub async fn rep1(&mut self, v: i64, cx: &mut Context<Self>) -> i64 {
         self.reply(1, v, cx).await
+    }
+    /// the non-async twins of in0..in3 (scripts without send / query only)
+    fn handle_sync(&mut self, input: usize, v: i64, cx: &mut Context<Self>) {
+        self.log.lock().unwrap().push(format!(
+            "H:{}:{}:{}:{}",
+            self.id,
+            input,
+            v,
+            ns(cx.time())
+        ));
+        let spec = self.spec.clone();
+        let empty = Vec::new();
+        let script = spec.handlers.get(input).unwrap_or(&empty);
+        for op in script {
+            match op {
+                Op::Send(..) | Op::Query(..) => unreachable!("an awaiting op in a non-async input"),
+                Op::Sched(d, input, e, slot, period) => {
+                    let code = self.sched_from_model(cx, *d, *input, e.eval(v), *slot, *period);
+                    self.log
+                        .lock()
+                        .unwrap()
+                        .push(format!("X:{}:{}", self.id, code));
+                }
+                Op::Cancel(sl) => {
+                    if let Some(k) = self.keys[*sl].take() {
+                        k.cancel();
+                    }
+                }
+                Op::CancelAuto(sl) => {
+                    if let Some(k) = self.keys[*sl].take() {
+                        drop(k.into_auto());
+                    }
+                }
+                Op::Panic(c) => {
+                    std::panic::panic_any(PanicCode(*c));
+                }
+                Op::Nested(t, k) => nested(*t, *k, false),
+                Op::NestedPanic(t, k) => nested(*t, *k, true),
+                Op::Sleep(ms) => std::thread::sleep(Duration::from_millis(*ms)),
+            }
+        }
+    }
+    pub fn in0s(&mut self, v: i64, cx: &mut Context<Self>) {
+        self.handle_sync(0, v, cx)
+    }
+    pub fn in1s(&mut self, v: i64, cx: &mut Context<Self>) {
+        self.handle_sync(1, v, cx)
+    }
+    pub fn in2s(&mut self, v: i64, cx: &mut Context<Self>) {
+        self.handle_sync(2, v, cx)
+    }
+    pub fn in3s(&mut self, v: i64, cx: &mut Context<Self>) {
+        self.handle_sync(3, v, cx)
     }
 }
 
@@ -803,7 +873,7 @@ fn err_str(e: ExecutionError) -> String {
     }
 }
 
-fn connect_out(out: &mut Output<i64>, c: &Conn, addrs: &[Address<SM>], sinks: &[SinkK]) {
+fn connect_out(out: &mut Output<i64>, c: &Conn, addrs: &[Address<SM>], sinks: &[SinkK], specs: &[MSpec]) {
     let keep = c.keep;
     let add = c.add;
     match c.tgt {
@@ -821,7 +891,7 @@ fn connect_out(out: &mut Output<i64>, c: &Conn, addrs: &[Address<SM>], sinks: &[
                     }
                 };
             }
-            by_input!(i, go)
+            by_input!(i, use_sync(&specs[m], m, i), go)
         }
         Tgt::Sink(s) => match &sinks[s] {
             SinkK::Buf(b) => match (keep, add) {
@@ -844,7 +914,7 @@ fn connect_out(out: &mut Output<i64>, c: &Conn, addrs: &[Address<SM>], sinks: &[
     }
 }
 
-fn connect_src(src: &mut EventSource<i64>, c: &Conn, addrs: &[Address<SM>]) {
+fn connect_src(src: &mut EventSource<i64>, c: &Conn, addrs: &[Address<SM>], specs: &[MSpec]) {
     let keep = c.keep;
     let add = c.add;
     if let Tgt::Model(m, i) = c.tgt {
@@ -861,7 +931,7 @@ fn connect_src(src: &mut EventSource<i64>, c: &Conn, addrs: &[Address<SM>]) {
                 }
             };
         }
-        by_input!(i, go)
+        by_input!(i, use_sync(&specs[m], m, i), go)
     }
 }
 
@@ -902,6 +972,8 @@ fn drain(log: &Log) -> String {
 }
 
 pub fn run(case: &Case) -> String {
+    // the kind (fn / async fn) of the input methods varies with the case
+    SYNC_SALT.store(case.cmds.len() + case.models.len(), std::sync::atomic::Ordering::Relaxed);
     match case.delays {
         Some((seed, pm, us)) => nexosim::verif::set_delays(seed, pm, us, !0),
         None => nexosim::verif::set_delays(0, 0, 0, 0),
@@ -941,7 +1013,7 @@ fn run_inner(case: &Case) -> String {
         for conns in &sp.outs {
             let mut o = Output::default();
             for c in conns {
-                connect_out(&mut o, c, &addrs, &sinks);
+                connect_out(&mut o, c, &addrs, &sinks, &case.models);
             }
             outs.push(o);
         }
@@ -966,7 +1038,7 @@ fn run_inner(case: &Case) -> String {
     for conns in &case.sources {
         let mut s = EventSource::new();
         for c in conns {
-            connect_src(&mut s, c, &addrs);
+            connect_src(&mut s, c, &addrs, &case.models);
         }
         sources.push(s);
     }
@@ -1106,7 +1178,7 @@ fn run_inner(case: &Case) -> String {
                         }
                     }};
                 }
-                let code = by_input!(i, go);
+                let code = by_input!(i, use_sync(&case.models[m], m, i), go);
                 format!("sched:{}", code)
             }
             Cmd::SchedSrc(d, s, v, slot, period) => {
@@ -1172,7 +1244,7 @@ fn run_inner(case: &Case) -> String {
                         simu.process_event($f, *v, &addrs[*m])
                     };
                 }
-                match by_input!(*i, go) {
+                match by_input!(*i, use_sync(&case.models[*m], *m, *i), go) {
                     Ok(()) => "ok".into(),
                     Err(e) => err_str(e),
                 }
@@ -1214,6 +1286,7 @@ fn run_inner(case: &Case) -> String {
                 let sched2 = sched.clone();
                 let addr = addrs[*m].clone();
                 let (kind, i, v) = (*kind, *i, *v);
+                let sy = use_sync(&case.models[*m], *m, i);
                 let th = std::thread::spawn(move || -> u8 {
                     macro_rules! go {
                         ($f:path) => {
@@ -1225,7 +1298,7 @@ fn run_inner(case: &Case) -> String {
                             }
                         };
                     }
-                    by_input!(i, go)
+                    by_input!(i, sy, go)
                 });
                 // wait until the request is inside into_time, then step
                 let _ = erx.recv_timeout(Duration::from_millis(2000));
